@@ -45,6 +45,11 @@ CHECKS["C15"] = dict(engine="TestCommand", ref="3 (C15)", note=_E2E_NOTE, techni
 CHECKS["C20"] = dict(engine="TestCommand", ref="3 (C20)", note=_E2E_NOTE, technique=_E2E_TECH,
     text="Scenario family: 1-3 documents (Markdown and Cram mixed), shared prepend/append documents via -P/-A or front-matter, test cases that pass / fail on output / fail on code / detach / skip / die, faults (unreadable document, unparsable document, missing shell). TLC checks C20ok on the model (6342 scenarios) and on each observed run: the marker log lists every command once in assembled order (prefix when a document was cut short), at most one result per test case and one for every non-detached one, exit status 1 / 50 / 0 as specified, and the pretty renderer's summary adds up and agrees with the JSON results.")
 
+CHECKS["C06"] = dict(engine="MarkdownDoc", ref="3 (C06), Appendix A.3",
+    text="specs/MarkdownDoc.tla gives a declarative reading MdRef of a document built from segments (prose lines incl. lines starting with one or two backticks and `---`, front-matter terminated or not, verbatim blocks with 3/4-backtick fences and nested shorter fences, scrut blocks with config, comments, continuations, `$`/`>`/`#`-looking output, `[n]`, empty and command-less bodies, unterminated blocks) and a line-by-line tokenizer machine shaped like src/parsers/markdown.rs with explicit end-of-input actions; TLC checks that the machine yields exactly MdRef on every document in the bound (6891 quick) and emits each document with its reference. The real MarkdownParser parses every document in 4 renderings (LF/CRLF x final newline or not); TLC compares each result with the reference: no panic; Ok => exactly the referenced tests (command, expectation lines, exit code, inline config, 1-based `$` line, title) and never Ok where only an error is acceptable.",
+    note="Trusted: TLC; the segment renderer. Ambiguous Markdown is excluded by construction. Err is always acceptable (statement), unexpected Errs are reported as DRIFT. Titles compared only where statement and long-standing behaviour agree.",
+    technique="TLA+ reference reading + tokenizer machine, TLC equivalence check on all documents in the bound, documents replayed into MarkdownParser::parse, TLC comparison of every result")
+
 NOT_YET = {
 }
 
@@ -88,6 +93,8 @@ def main():
              "kind_free_text": "TLA+ spec of DiffTool::diff with reference language semantics; MC_DiffAlgo (TLC MC/GEN), DiffTrace (result-level trace validation), DiffStepTrace (step-level trace validation of hook events)"},
             {"name": "TestCommand", "path": "specs/TestCommand.tla", "serves_properties": ["C05", "C14", "C15", "C20"],
              "kind_free_text": "TLA+ spec of `scrut test` end to end: TestCommandProps (scenario structure + property predicates), TestCommand (the machine), MC_TestCommand (scenario families, TLC MC/GEN), TestCommandTrace (TLC evaluation of observed runs); run/scenario.py materialises and runs scenarios with the real binary"},
+            {"name": "MarkdownDoc", "path": "specs/MarkdownDoc.tla", "serves_properties": ["C06"],
+             "kind_free_text": "TLA+ spec of Markdown test documents: reference reading MdRef, tokenizer machine MdTok, MC_MarkdownDoc (equivalence + GEN), MarkdownTrace (comparison of real parses)"},
             {"name": "Rules", "path": "specs/Rules.tla", "serves_properties": ["C04"],
              "kind_free_text": "TLA+ reference semantics of the expectation kinds; MC_Rules (enumeration + sanity), RulesTrace (re-evaluation of implementation answers)"},
         ],
